@@ -7,7 +7,8 @@ import PxModel.Relay
     relay shut <threaded> <maxSend> <cbuf> <sel>…     sel = t | y<send>
 
     <buf>   `.` = empty list, else elements joined by `,` (`-` = empty element)
-    <tick>  <m|r><cR><cW><uR><uW>:<cRecv>:<cSend>:<uRecv>:<uSend>:<app>
+    <tick>  R<elapsed>,<timeout>   (reaper event, Ints in clock units)   or
+            <m|r><cR><cW><uR><uW>:<cRecv>:<cSend>:<uRecv>:<uSend>:<app>
             m = masked by get_events (Relay.step), r = raw (Relay.tick)
     <recv>  d<hex> | e | r | t | o | b | w
     <send>  s<k> | b | p | o | w
@@ -98,12 +99,39 @@ def stStr (s : St) : String :=
 def retStr : Ret → String
   | .cont => "c" | .teardown => "t" | .raised => "x"
 
+/-- `R<elapsed>,<timeout>` : the reaper looks at the connection -/
+def parseReap (s : String) : Option (Int × Int) :=
+  match s.toList with
+  | 'R' :: rest =>
+    match (String.ofList rest).splitOn "," with
+    | [a, b] => do
+      let a ← a.toInt?
+      let b ← b.toInt?
+      some (a, b)
+    | _ => none
+  | _ => none
+
+def parseItem (s : String) : Option ((Bool × Tick) ⊕ (Int × Int)) :=
+  match parseReap s with
+  | some r => some (.inr r)
+  | none => (parseTick s).map .inl
+
 def runObs (s : St) : List (Bool × Tick) → List String
   | [] => []
   | (m, t) :: ts =>
     match (if m then step s t else tick s t) with
     | (s1, .cont) => s!"ret=c {stStr s1}" :: runObs s1 ts
     | (s1, r) => [s!"ret={retStr r} {stStr s1}"]
+
+def runObsEv (s : St) : List ((Bool × Tick) ⊕ (Int × Int)) → List String
+  | [] => []
+  | .inl (m, t) :: ts =>
+    match (if m then step s t else tick s t) with
+    | (s1, .cont) => s!"ret=c {stStr s1}" :: runObsEv s1 ts
+    | (s1, r) => [s!"ret={retStr r} {stStr s1}"]
+  | .inr (e, to) :: ts =>
+    if isInactive s e to then ["reap ia=1 closed=1"]
+    else "reap ia=0 closed=0" :: runObsEv s ts
 
 def flushOps (maxSend : Nat) (c : Conn) : List String → List String
   | [] => []
@@ -142,10 +170,10 @@ def drv (args : List String) : String :=
     | some m, some b => " | ".intercalate (flushOps m { buffer := b } ops)
     | _, _ => "bad-op"
   | "run" :: kind :: maxSend :: mf :: rt :: cbuf :: ubuf :: ticks =>
-    match parseKind kind, maxSend.toNat?, parseBuf cbuf, parseBuf ubuf, ticks.mapM parseTick with
+    match parseKind kind, maxSend.toNat?, parseBuf cbuf, parseBuf ubuf, ticks.mapM parseItem with
     | some k, some m, some cb, some ub, some ts =>
       let s := st0 k m cb ub (mf == "1") (rt == "1")
-      " | ".intercalate (s!"init {stStr s}" :: runObs s ts)
+      " | ".intercalate (s!"init {stStr s}" :: runObsEv s ts)
     | _, _, _, _, _ => "bad-op"
   | "shut" :: threaded :: maxSend :: cbuf :: sels =>
     match maxSend.toNat?, parseBuf cbuf, sels.mapM parseSel with
